@@ -218,6 +218,9 @@ func (p *Pool) Put(x interface{}) {
 	p.sync()
 	p.items = append(p.items, x)
 	mcrt.Done(unsafe.Pointer(p), true, 3)
+	// a point right after the release: lets another thread take the object before the releasing thread's
+	// next plain access (use-after-Put windows contain no other synchronisation operation)
+	mcrt.Point("pool.put.after")
 }
 
 // Once shims sync.Once.
